@@ -50,6 +50,7 @@ class Context:
         self.extra: dict = {}
         self.assumptions: list[str] = []
         self.replay = replay
+        self.floor_failures: list[str] = []
 
     # ---- rule bookkeeping
     def rule(self, rid: str, desc: str) -> None:
@@ -90,11 +91,17 @@ class Context:
 
     def floor(self, rid: str, minimum: int) -> None:
         """Fail closed if fewer instances of a rule were found than confirmed by hand."""
-        from .model import AnchorError
         got = self.rules.get(rid, {}).get("instances", 0)
         if got < minimum:
-            raise AnchorError(f"rule {rid}: only {got} instances found, floor is {minimum} "
-                              f"(the analysed code changed shape; rule would pass vacuously)")
+            # deferred: violations found in the same run are still reported (exit 1); with no violation the run ends as
+            # ANALYSIS-ERROR (exit 2) - see check_floors()
+            self.floor_failures.append(f"rule {rid}: only {got} instances found, floor is {minimum} "
+                                       f"(the analysed code changed shape; rule would pass vacuously)")
+
+    def check_floors(self, have_new_violations: bool) -> None:
+        from .model import AnchorError
+        if self.floor_failures and not have_new_violations:
+            raise AnchorError("; ".join(self.floor_failures))
 
 
 def load_known() -> list[dict]:
